@@ -265,12 +265,12 @@ class Gen:
                     ins = (mm.group(1), mm.group(2), [])
                 inserts.append(ins)
                 cur = ins[2]
-            elif d.startswith('subre '):
+            elif d.startswith('subre ') or d.startswith('sub '):
                 t = _ticks(d)
-                subs.append(('re', t[0], t[1], d.split()[-1]))
-            elif d.startswith('sub '):
-                t = _ticks(d)
-                subs.append(('lit', t[0], t[1], d.split()[-1]))
+                toks = d.split()
+                opt = toks[-1] == '?'
+                tag = toks[-2] if opt else toks[-1]
+                subs.append(('re' if d.startswith('subre ') else 'lit', t[0], t[1], tag, opt))
             elif d == 'tail':
                 cur = synth_tail
             elif d.startswith('sig'):
@@ -321,17 +321,16 @@ class Gen:
             body = rule_R11(body, fired)
             body = rule_R2(body, fired)
             body = rule_R10(body, fired)
-            for kind, a, b, tag in subs:
+            for kind, a, b, tag, opt in subs:
+                rx = anchor_regex(a) if kind == 'lit' else re.compile(a)
+                if not rx.search(body) and not rx.search(sig):
+                    if opt:
+                        continue
+                    raise LostAnchor('%s: sub anchor `%s` not found' % (oid, a))
                 if kind == 'lit':
-                    rx = anchor_regex(a)
-                    if not rx.search(body) and not rx.search(sig):
-                        raise LostAnchor('%s: sub anchor `%s` not found' % (oid, a))
                     body = rx.sub(lambda _m: b, body)
                     sig = rx.sub(lambda _m: b, sig)
                 else:
-                    rx = re.compile(a)
-                    if not rx.search(body) and not rx.search(sig):
-                        raise LostAnchor('%s: subre anchor `%s` not found' % (oid, a))
                     body = rx.sub(b, body)
                     sig = rx.sub(b, sig)
                 fired.append(tag)
@@ -355,9 +354,11 @@ class Gen:
                 body = body[:k] + '\n' + '\n'.join(txt) + '\n' + body[k:]
                 fired.append('R8')
         else:
-            for kind, a, b, tag in subs:
+            for kind, a, b, tag, opt in subs:
                 if kind == 'lit':
                     if a not in sig:
+                        if opt:
+                            continue
                         raise LostAnchor('%s: sub anchor `%s` not found in signature' % (oid, a))
                     sig = sig.replace(a, b)
                 else:
@@ -541,7 +542,11 @@ class Gen:
             # close it with a line `} // mod x`)
             m = re.match(r'\s*(?:pub\s+)?mod\s+(\w+)\s*\{', l)
             if m:
+                parent = '::'.join(self.cur_mod_stack)
                 self.cur_mod_stack.append(m.group(1))
+                if m.group(1) == 'lem' and parent in self.meta['modules']:
+                    # lemma sub-modules belong to the obligations of their parent module
+                    self.meta['modules']['::'.join(self.cur_mod_stack)] = dict(self.meta['modules'][parent], note='lemmas of ' + parent)
             elif re.match(r'\s*\}\s*//\s*mod\s+(\w+)', l):
                 nm = re.match(r'\s*\}\s*//\s*mod\s+(\w+)', l).group(1)
                 if not self.cur_mod_stack or self.cur_mod_stack[-1] != nm:
@@ -603,9 +608,16 @@ if __name__ == '__main__':
     ap.add_argument('out_meta')
     ap.add_argument('templates', nargs='+')
     ap.add_argument('--flag', action='append', default=[])
+    ap.add_argument('--family', type=int, default=None, help='seed: build the derive family and include it')
     a = ap.parse_args()
     try:
-        generate(a.expanded, a.templates, a.out_rs, a.out_meta, a.flag)
+        es, ex = None, None
+        if a.family is not None:
+            import family
+            import check
+            fp, defs, _ = family.build(a.family, 'quick', check.repo_hash())
+            es, ex = {'family': fp}, {'family_defs': defs}
+        generate(a.expanded, a.templates, a.out_rs, a.out_meta, a.flag, es, ex)
     except LostAnchor as e:
         print('LOST-ANCHOR: %s' % e)
         sys.exit(2)
